@@ -75,6 +75,16 @@ CLAIMED = {
             "outputs; the command line on a pipe that stays open and with a reader that closes early. Partial: input consumption and "
             "time per output are observed, not proved (the model has no shared input stream).",
             "7.3", "Coq proof (rest-independence of prefix consumers) + model/implementation correspondence + consumption counters"),
+    "C04": ("Theorems about the compiler model: a call of an enclosing definition under any stack of tail contexts (right of |, of as p |, "
+            "either side of the comma, right of //, then/else branch, foreach projection) is compiled to a thrown tail call and reported to "
+            "the caller; outside a tail position it catches instead; array/negation/label/try/reduce/arithmetic/comparison/update/path/"
+            "string/object construction drop the tail-callable set. Correspondence: the compiled tables of the implementation against the "
+            "model compiler's forest with call types on random nests of tail-recursive definitions (self, parent, child and earlier-sibling "
+            "calls through random stacks of tail contexts, counter in . or in a variable, variable and filter arguments handed on); no "
+            "CatchAll call may appear in such a nest. Measurement on the binary: N and 2N iterations under a 512 KB stack, result and "
+            "peak-memory growth, run for values, under first/limit/label, for paths, and the built-in loops. Partial: constant stack and "
+            "heap of the interpreter are measured, not proved. Known finding: heap growth for tail calls in a foreach projection.",
+            "7.4", "Coq proof (tail-call classification of the compiler model) + table correspondence + stack/heap measurement"),
     "C05": ("Theorems (the guards between boundary values and a crash, on the model the other properties tie to the code): machine-integer "
             "results of + - * % negation and length always lie in the range of isize (otherwise big integers); an accepted index lies inside "
             "the sequence; the byte offset of a character position is a chunk boundary inside the string and string slices lie inside the "
@@ -86,6 +96,15 @@ CLAIMED = {
             "every output format. Partial: a total model cannot exhibit a panic, the search is a test; allocation failures, capacity overflow "
             "and stack overflow are excepted as the property says.",
             "7.5", "Coq proof (range, bounds and boundary guards) + crash search over filter texts, native x boundary tuples and documents"),
+    "C06": ("Theorems: in the loader model every file read is the prelude or named by a chain of import/include directives from the main "
+            "program, and none is read twice (the set of files read is determined by the directives alone); the --in-place exception changes "
+            "nothing but the named file and its temporary file; the modelled filters are Gallina functions (no world to touch). Observation "
+            "at the system-call boundary (strace -f on the binary): every native and definition discovered from the current tree and the "
+            "format filters on tuples of path-like/URL-like/command-like values, generated programs, adversarial and mutated documents per "
+            "decoder, runs with named inputs/modules/data files whose contents name other paths, time-zone filters; policy: no write-open, "
+            "create, rename, link, delete, socket, process; reads only of start-up files, named files and the time-zone database; canaries "
+            "and working directory unchanged. Partial: the behaviour of the Rust natives is observed, not proved.",
+            "7.6", "Coq proof (loader reads only named files, in-place frame) + system-call observation of the binary"),
     "C07": ("Theorems: for all 256 bytes and both string kinds the reader undoes the writer's escape in one step; whole text strings "
             "and byte strings of arbitrary bytes (control characters, quotes, DEL, invalid UTF-8) survive print-then-parse. "
             "Correspondence: tojson, tojson|fromjson on exhaustive short strings, floats (edge + random bit patterns), integers of any "
